@@ -24,6 +24,16 @@ def run(ctx):
         else:
             m = U.rand_tx(rng) if tx else U.rand_rx(rng, soft_domain=not rng.chance(1, 20))
         msgs.append((m, rng.chance(1, 2)))
+    # the product modulation x TSC set x TSC around their ranges on otherwise valid version-1 messages: what is accepted must
+    # survive the round trip (the MTS octet has room for exactly the documented sets of each modulation)
+    for mod in range(6):
+        for tset in (-1, 0, 1, 2, 3, 4):
+            for tsc in (-1, 0, 7, 8):
+                m = U.rand_rx(rng)
+                while m["ver"] != 1 or m["nope"]:
+                    m = U.rand_rx(rng)
+                m.update(mod=mod, tset=tset, tsc=tsc, burst=[rng.range(-127, 127) for _ in range(U.MOD_BL[mod])])
+                msgs.append((m, rng.chance(1, 2)))
     # encode on the implementation
     gen_obs = [U.do_gen(m, legacy) for m, legacy in msgs]
     U.gen_reuse_check(ctx, msgs, gen_obs, "c01-gen-history")
